@@ -126,10 +126,21 @@ def inline(sk):
         return out
     return {k:expand(v) for k,v in sk.items() if k!='rng'}
 
+def coq_file(sk):
+    out = ['(* GENERATED by tools/lockskel.py from src/api.rs and src/encrypted_header.rs of the repository - do not edit. *)',
+           'From Coq Require Import List String.', 'From CC Require Import Conc.', 'Import ListNotations.', 'Open Scope string_scope.',
+           'Definition api_skeletons : list (string * program) := [']
+    out.append(';\n'.join('  ("%s", [%s])' % (k, '; '.join(v)) for k, v in sk.items()))
+    out.append('].')
+    return '\n'.join(out) + '\n'
+
 if __name__=='__main__':
-    sk=inline(skeletons(sys.argv[1:]))
-    for k,v in sk.items(): print(k,v)
-    print('(* Coq *)')
-    print('Definition api_skeletons : list (list ev) := [')
-    print(';\n'.join('  ['+'; '.join(v)+']' for v in sk.values()))
-    print('].')
+    import os
+    args = sys.argv[1:]
+    outp = None
+    if '-o' in args: outp = args[args.index('-o') + 1]; args = [a for a in args if a not in ('-o', outp)]
+    sk = inline(skeletons(args))
+    for k, v in sk.items(): print(k, ' '.join(v) if v else '-')
+    if outp:
+        txt = coq_file(sk)
+        if not os.path.exists(outp) or open(outp).read() != txt: open(outp, 'w').write(txt)
